@@ -23,6 +23,14 @@ CHECKS = {
     ),
 }
 
+CHECKS["C05"] = (
+    "model_checking",
+    "TLA+ spec of the DUL/association/user threads (Assoc.tla over ULTable) model-checked by TLC against an adversarial peer; known crash signatures witnessed by TLC trap invariants and replayed on the real threads; TLC-simulated behaviours replayed step by step on the real Association+DUL threads with state comparison (S2C)",
+    "TLC explores every interleaving of provider loop halves, association reactor steps, user abort/release calls, peer frames/EOF and timer expiries within bounds (C05_DefinedEventsOnly modulo known_findings, C05_DoneImpliesIdle). Each model action is one step of a real thread under the gate controller; the projected implementation state is compared after every step, and a real InvalidEventError or a finished-but-not-idle node is the violation.",
+    "Trusted: step boundaries (queue reads, event waits, spin sleeps, DUL hook points) serialise the real threads; fake transport mirrors AssociationSocket; time-progress assumption for timeouts. Acceptor role here; requestor/pair in C06.",
+    "§6 C05", "assoc",
+)
+
 NOT_YET = {}
 
 
